@@ -2,6 +2,7 @@ package main
 
 import (
 	"context"
+	"encoding/binary"
 	"errors"
 	"fmt"
 	"hash/fnv"
@@ -11,6 +12,7 @@ import (
 
 	"github.com/PowerDNS/lightningstream/config"
 	"github.com/PowerDNS/lightningstream/lmdbenv/header"
+	"github.com/PowerDNS/lightningstream/syncer"
 	"github.com/PowerDNS/lightningstream/syncer/sweeper"
 	"github.com/PowerDNS/lmdb-go/lmdb"
 	"github.com/sirupsen/logrus"
@@ -29,7 +31,11 @@ func fillEntry(i int, x uint64) ([]byte, []byte, uint64) {
 	} else {
 		app = []byte{byte(x >> 48)}
 	}
-	return []byte(fmt.Sprintf("k%06d", i)), mkStored(ts, (x>>20)%5, 0, fl, 0, 0, app), x
+	ne := 0
+	if (x>>44)%4 == 0 {
+		ne = 1 // a header with one extension block (what header_extra_padding_block writes)
+	}
+	return []byte(fmt.Sprintf("k%06d", i)), mkStored(ts, (x>>20)%5, 0, fl, ne, 0, app), x
 }
 
 // applyAppOps runs one application transaction (same semantics as env.app).
@@ -189,6 +195,29 @@ func init() {
 			return "err other:" + strings.ReplaceAll(clipStr(err.Error()), " ", "_")
 		}
 		st := sw.VerifLastStats()
+		// completeness (no application writes during the pass): no marker older than the cut-off
+		// is left in a DBI the sweeper is responsible for, whatever its header looks like
+		quiet := true
+		for _, b := range batches {
+			quiet = quiet && b == "-"
+		}
+		if quiet {
+			if img, err := imageOf(i); err == nil {
+				for _, n := range img.names {
+					if i.native == isPrivateName(n) {
+						continue // native schema: application DBIs; otherwise: the shadow DBIs
+					}
+					if !i.native && !strings.HasPrefix(n, syncer.SyncDBIShadowPrefix) {
+						continue
+					}
+					for _, p := range img.dbis[n].kvs {
+						if len(p.v) >= 24 && p.v[16] == 0 && p.v[17]&1 == 1 && binary.BigEndian.Uint64(p.v[0:8]) < uint64(cutoff) {
+							return fmt.Sprintf("FAIL expired-marker-left-after-a-complete-pass dbi=%s key=%s value=%s", n, hx(p.k), hx(p.v))
+						}
+					}
+				}
+			}
+		}
 		return fmt.Sprintf("ok T%d txns=%d cleaned=%d", lastTxnID(i.env), st[0], st[1])
 	}
 }
